@@ -81,8 +81,9 @@ impl MersenneTwister {
     /// Yeilds a random f32 in the range [0..1).
     pub fn f32_0_1(&mut self) -> f32 {
         let mut u = self.next();
-        if u == u32::MAX {
-            u -= 1
+        // every u above 0xffffff7f rounds to 2^32 as f32 and would yield 1.0
+        if u > 0xffffff7f {
+            u = 0xffffff7f
         };
         u as f32 / 0xffffffffu32 as f32
     }
